@@ -7,13 +7,14 @@ import syscheck
 
 if __name__ == "__main__":
     setup_repo_path()
+    import gentie
     sys.exit(run_check(
-        "C04", lean_modules=["Pamiq.Props.C04", "Pamiq.Props.C04Data"],
-        required_theorems=["Pamiq.Proto.save_only_when_paused", "Pamiq.Proto.save_sees_quiescent_system", "Pamiq.Proto.no_step_completes_during_save", "Pamiq.Proto.save_end_resumes_iff_was_running", "Pamiq.Proto.save_records_paused_before", "Pamiq.Proto.after_save_only_resume", "Pamiq.Proto.final_save_after_all_exited",
+        "C04", lean_modules=["Pamiq.Props.C04", "Pamiq.Props.C04Data", "Pamiq.Lemmas.ProtoCtl"],
+        required_theorems=["Pamiq.Proto.cedge_sound", "Pamiq.Proto.save_only_when_paused", "Pamiq.Proto.save_sees_quiescent_system", "Pamiq.Proto.no_step_completes_during_save", "Pamiq.Proto.save_end_resumes_iff_was_running", "Pamiq.Proto.save_records_paused_before", "Pamiq.Proto.after_save_only_resume", "Pamiq.Proto.final_save_after_all_exited",
                            "Pamiq.SysData.proj_reachable", "Pamiq.SysData.cut_stable", "Pamiq.SysData.snapshot_is_cut",
                            "Pamiq.SysData.nothing_in_transit", "Pamiq.SysData.collected_all",
                            "Pamiq.SysData.saved_data_is_everything_collected", "Pamiq.SysData.final_values_settled"],
-        suites=syscheck.make_suites("C04", [('C04', 150, 4000), ('any', 200, 6000), ('C02', 60, 2000)],
+        suites=[gentie.suite_for("C04")] + syscheck.make_suites("C04", [('C04', 150, 4000), ('any', 200, 6000), ('C02', 60, 2000)],
             "random scenarios (0-2 trainers, child agent, 1-3 attempts, queue 1-3, web commands incl. "
             "pause/resume/save/status/invalid, save condition, faults at every callback kind, interrupts, "
             "timed mode) x seeded random schedules of the real launch(); each trace replayed through "
